@@ -163,6 +163,9 @@ class World:
             raise Violation(site, 'monitor-crashed-on-malformed-state',
                             repr(e))
         self.ctx.count('quiescent_checks')
+        if monitors.UNREADABLE_TABLES[0]:
+            self.ctx.counters['computed_tables_in_unknown_format'] = \
+                monitors.UNREADABLE_TABLES[0]
         return den
 
     def accept(self, site, h, expected, hold=True, strict=None):
